@@ -222,6 +222,8 @@ TARGET_CORPUS = [
     "replaytarget random 6 1 1 none a0,a0,cu,e sp1;sp2;sp3|a0.st.1;rc2;a1.st.1|a0.ld;yd|sd2.0.7 t2",
     "replaytarget random 3 1 1 none a0,m sp1;sp2;sp3|lk1;a0.st.1;ul1|lk1;a0.ld;ul1|rn;rn;yd t2",
     "replaytarget pct 4 2 1 none a0,m sp1;sp2;sp3|lk1;a0.st.1;ul1|lk1;a0.ld;ul1|rn;rn;yd t2",
+    # a failed acquire on a closed semaphore leaves the clock where it was: its record says nothing about the close it depends on
+    "replaytarget random 109248279154167327 1 1 none a0,s2:f,s2:u sp1;sp2;sp3;sr2.1;st2.3;sv2;st2.1;sa2.2;sr1.1;sa1.1;jn0;jn2|sa1.2;sa1.3;sv2|sa1.1;sa1.3;sr1.1|sv1;sr1.1;sc1",
     # witness of F38
     "replaytarget pct 16874011670326697088 2 1 none a0,s3:f,s1:u sp1;sp2;sp3;st1.1;sa2.2;sr1.2;st2.1;sr1.1;sa2.1;jn0|sa2.3;sr2.1;sr2.1;st1.1;sr2.1|sv2;sr2.1;st1.1;st1.1|sr2.1;sr2.1;sr2.2;sa2.1;sa2.1;sv1",
 ]
@@ -305,11 +307,21 @@ def judge_target_replay(out):
                 if x[2] != y[2] and x[1] not in VALUE_TAGS:
                     diverged = True
                     break
+        no_edge = False
         for t in tasks:
             d = [_cmp_form(e) for e in dep if e[0] == t]
             r = [_cmp_form(e) for e in c["log"] if e[0] == t]
             if r[:len(d)] != d:
                 k = next((i for i in range(len(d)) if i >= len(r) or r[i] != d[i]), 0)
+                if missing is None:
+                    # the first record that is not reproduced left its task's clock where it was (the clock of the task's
+                    # previous record, or of its spawn): the operation synchronised with nothing, so its outcome - a failed
+                    # acquire on a closed semaphore, Empty, a failed try - may depend on a dropped step without any
+                    # happens-before edge, and its clock says nothing about what it depends on
+                    fd = [e for e in dep if e[0] == t]
+                    if r[:k] == d[:k] and fd[k][1] not in VALUE_TAGS:
+                        prev = fd[k - 1][3] if k > 0 else next((e[3] for e in orig if e[1] in SPAWN_TAGS and e[2].split(",")[0] == str(t)), None)
+                        no_edge = prev is not None and prev == fd[k][3]
                 missing = missing or (t, d[k], r[k] if k < len(r) else None)
             if len(r) > len(d):
                 extra = True
@@ -342,6 +354,8 @@ def judge_target_replay(out):
             # mechanism of F36.  A step that the scheduler wrongly drops does not block anybody: the task simply runs one
             # step late and the schedule is used up before its last records (verdict `violation` below)
             verdicts.append(("F36", detail))
+        elif no_edge:
+            verdicts.append(("unordered_observation_diverged", detail))
         else:
             verdicts.append(("violation", detail))
     return verdicts
